@@ -923,4 +923,9 @@ class Generator:
         emit_node(tree, 0)
         emit('} // verus!')
         emit('fn main() {}')
+        if any(':: __export :: must_use' in l for l in lines):
+            # `format!(..)` expands to `::alloc::__export::must_use({ ::alloc::fmt::format(format_args!(..)) })`: needs the
+            # `hint_must_use` gate; added only to files that contain such a body (all other files stay byte-identical)
+            k = lines.index('#![feature(liballoc_internals)]')
+            lines[k] = '#![feature(liballoc_internals, hint_must_use)]'
         return '\n'.join(lines) + '\n', linemap
